@@ -303,6 +303,23 @@ def arena_bounds(ck, F, prefix='C03'):
     return {'S4': S4, 'af': af, 'NH': NH, 'F_STORAGE': F_STORAGE, 'srec': srec}
 
 
+def one_pool(ck, F, prefix):
+    """One Lexicon, one string pool: every route that interns a spelling goes through the same pool; borrowed by C04."""
+    R = ck.rule(f'{prefix}.one-pool', 'a Lexicon (with all its factory bases) holds exactly one util::string_pool: with a second pool, a spelling '
+                'interned through one entry point and again through another has two String nodes in the same Lexicon', floor=1)
+    LEX = 'ipr::impl::Lexicon'
+    F.need_rec(LEX)
+    pools = []
+    for c in [LEX] + F.ancestors(LEX):
+        for fl in (F.rec.get(c) or {}).get('fields', []):
+            if fl['t'].replace('const ', '').strip() == 'ipr::util::string_pool':
+                pools.append(f'{contracts.short(c)}::{fl["name"]}')
+        for b in (F.rec.get(c) or {}).get('bases', []):
+            if b['name'] == 'ipr::util::string_pool':
+                pools.append(f'{contracts.short(c)} (base)')
+    ck.check(R, 'Lexicon', len(pools) == 1, f'string pools of a Lexicon: {pools}', loc=F.rec[LEX]['loc'])
+
+
 def run(ck, F):
     ck.explanation = (
         'string_pool::intern, arena::make_string and arena::allocate are evaluated symbolically (all paths); the rule '
@@ -312,6 +329,7 @@ def run(ck, F):
         'folded by the compiler (valid for every length n, including the inline-header, granule, pool-capacity and '
         'oversize boundaries).  The reserved-word table is read from its initialiser.')
     ck.assume('std::hash / std::map / std::find_if / std::lower_bound / std::copy behave as specified')
+    one_pool(ck, F, 'C03')
     S = Sym(F, opaque=lambda fid: F.fn.get(fid) is None or F.fn[fid]['name'] in ('word_if_known', 'make_string'), max_depth=40)
     f = F.intern_fn()
     try:
